@@ -11,6 +11,9 @@ let () =
            try
              match mode with
              | "sym" -> Driver_sym.run_case toks
+             | "exp" -> Driver_exp.run_case toks
+             | "safe" -> Driver_safe.run_case toks
+             | "dispatch" -> Driver_safe.run_dispatch toks
              | _ -> "error unknown-mode"
            with Failure s -> "error " ^ s | Not_found -> "error not-found" | Stack_overflow -> "error stack-overflow"
          in
